@@ -57,6 +57,12 @@ def build(eng, tier):
     build_constant_lifting(eng)
     build_initializer_input_conversion(eng)
     build_remove_initializers_from_inputs(eng)
+    # shape inference and the checker reach ONNX through call_onnx_api: on every exit the initializers (values, tensors, order) and
+    # the graph inputs are those of the entry state, so what the model computes is what it computed.  The contract is shared with
+    # C14, whose quick check discharges it on every change (about 4 minutes of solver time); here it is part of the thorough tier.
+    if tier == "thorough":
+        from . import onnx_api
+        onnx_api.add_call_onnx_api_target(eng, prop="C05")
 
 
 def build_identity(eng):
